@@ -7,7 +7,7 @@ from typing import Any, Dict, List, Optional, Set, Tuple
 
 from ..core import AnalysisError, Report
 from ..pysubst import method_outcomes
-from ..pyfacts import Repo, eval_int_expr, calls, dotted, fold, norm, walk_no_nested
+from ..pyfacts import Repo, clone, eval_int_expr, normalize_indexed_loops, calls, dotted, fold, norm, walk_no_nested
 
 PARSER = 'flipjump/assembler/fj_parser.py'
 EXPR = 'flipjump/assembler/inner_classes/expr.py'
@@ -286,12 +286,23 @@ def rule_literals(rep: Report, repo: Repo) -> None:
     # the packing fold over enumerate(chars), as a sum(...) generator or as an explicit accumulation loop: the summand is folded
     # for index 0..5 and byte values against value << 8*index
     fold = None             # (index name, value name, summand)
+    st = normalize_indexed_loops(st)                 # enumerate(chars) reads as range(len(chars)) with chars[i]
+    packs = [norm(n.value) for n in ast.walk(st) if isinstance(n, ast.Assign) and norm(n.targets[0]) == 't.value']
+
+    class _Val(ast.NodeTransformer):                 # chars[i] -> the symbol `__v`
+        def __init__(self, i: str):
+            self.i = i
+
+        def visit_Subscript(self, node: ast.Subscript) -> ast.AST:
+            if norm(node.value) == 'chars' and norm(node.slice) == self.i:
+                return ast.Name(id='__v', ctx=ast.Load())
+            return self.generic_visit(node)
     for n in ast.walk(st):
         if isinstance(n, ast.Call) and dotted(n.func) == 'sum' and len(n.args) == 1 and isinstance(n.args[0], (ast.GeneratorExp, ast.ListComp)):
             g = n.args[0].generators
-            if len(g) == 1 and norm(g[0].iter) == 'enumerate(chars)' and isinstance(g[0].target, ast.Tuple) and not g[0].ifs:
-                fold = (norm(g[0].target.elts[0]), norm(g[0].target.elts[1]), n.args[0].elt, 'sum')
-        if isinstance(n, ast.For) and norm(n.iter) == 'enumerate(chars)' and isinstance(n.target, ast.Tuple) and len(n.body) == 1:
+            if len(g) == 1 and norm(g[0].iter) == 'range(len(chars))' and isinstance(g[0].target, ast.Name) and not g[0].ifs:
+                fold = (g[0].target.id, '__v', _Val(g[0].target.id).visit(clone(n.args[0].elt)), 'sum')
+        if isinstance(n, ast.For) and norm(n.iter) == 'range(len(chars))' and isinstance(n.target, ast.Name) and len(n.body) == 1:
             b0 = n.body[0]
             acc = None
             if isinstance(b0, ast.AugAssign) and isinstance(b0.op, (ast.Add, ast.BitOr)) and isinstance(b0.target, ast.Name):
@@ -302,7 +313,7 @@ def rule_literals(rep: Report, repo: Repo) -> None:
             if acc is not None:
                 init = [norm(x.value) for x in st.body if isinstance(x, ast.Assign) and norm(x.targets[0]) == acc]
                 if init == ['0'] and packs == [acc]:
-                    fold = (norm(n.target.elts[0]), norm(n.target.elts[1]), summand, 'loop')
+                    fold = (n.target.id, '__v', _Val(n.target.id).visit(clone(summand)), 'loop')
     wrong = []
     if fold is not None:
         for i in range(6):
